@@ -1,5 +1,6 @@
 import ActsModel.Spec.Ref
 import ActsModel.Spec.Progress
+import ActsModel.Gen.Branch
 
 /-!
 # C01 — Progress: a quiescent, unfinished process is always waiting on a client
@@ -464,6 +465,14 @@ theorem done_mono_acts (a a' : Answered) (h : ∀ i, a i = true → a' i = true)
       | true => simp only [↓reduceIte] at this ⊢; exact h j this
     | msg j c => simp [doneAct]
 end
+
+/-- K1 (read from the source on this run): what wakes a waiting branch — a `needs` branch is ready as soon as one named sibling has
+ended, the `else` branch when every sibling was skipped (and it is closed once a sibling ended otherwise), and each pass of the step over
+its waiting branches (`Step::next`, `Step::review`) resumes every branch that has become ready. These are the code facts behind `opens`
+never being empty for an unfinished construct. -/
+theorem waiting_branches_are_woken :
+    Acts.Gen.needsReadyAnyEnded = true ∧ Acts.Gen.elseReadyAllSkipped = true ∧ Acts.Gen.elseClosedWhenTaken = true ∧
+    Acts.Gen.nextWakesAll = true ∧ Acts.Gen.reviewWakesAll = true := by decide
 
 /-- the monitor is the property: with an empty queue it accepts exactly when every process is finished or waits -/
 theorem monitor_iff (procs : List Acts.Spec.QProc) :
